@@ -773,6 +773,12 @@ def completeItems (exro : Bool) : Option RS → List V → List V
   | some it => fun xs => xs.map (complete exro it)
 end
 
+/-- `allOf` under default-setting, declaratively: every member is judged on the value completed by ITSELF and by
+all EARLIER members (never by later ones), and hands the completed value on -/
+def chainComplete (exro : Bool) : List RS → V → Option V
+  | [], v => some v
+  | m :: r, v => if satReqB exro m (complete exro m v) then chainComplete exro r (complete exro m v) else none
+
 /-- where the request-side reading of the property text decides the verdict also under default-setting: no
 default fires on this value, or the schema is composition-free with harmless defaults -/
 def defaultsNeutral (exro : Bool) (s : RS) (v : V) : Bool :=
